@@ -31,19 +31,26 @@ def weight : List Edge → Int
 
 /-! ### spec-level union–find: one label per node -/
 
+/-- a component label for every node (wrapped so that compiled code evaluates `union`'s two
+look-ups once per union, not once per later look-up) -/
+structure Lab where
+  f : Nat → Nat
+
+def Lab.id : Lab := ⟨fun i => i⟩
+
 /-- merge the class of `b` into the class of `a` -/
-def union (lab : Nat → Nat) (a b : Nat) : Nat → Nat :=
-  let la := lab a
-  let lb := lab b
-  fun i => let li := lab i; if li = lb then la else li
+def union (lab : Lab) (a b : Nat) : Lab :=
+  let la := lab.f a
+  let lb := lab.f b
+  ⟨fun i => let li := lab.f i; if li = lb then la else li⟩
 
 /-- component labels after joining the endpoints of every edge of `F` -/
-def labOf (F : List Edge) : Nat → Nat := F.foldl (fun lab e => union lab e.u e.v) id
+def labOf (F : List Edge) : Lab := F.foldl (fun lab e => union lab e.u e.v) Lab.id
 
 /-! ### Kruskal -/
 
 structure KState where
-  lab : Nat → Nat
+  lab : Lab
   acc : List Edge
   total : Int
   iters : Nat
@@ -52,7 +59,7 @@ structure KState where
 def kloop (n : Nat) : List Edge → KState → KState
   | [], s => s
   | e :: es, s =>
-    if s.lab e.u = s.lab e.v then kloop n es { s with iters := s.iters + 1 }
+    if s.lab.f e.u = s.lab.f e.v then kloop n es { s with iters := s.iters + 1 }
     else
       let s' : KState := ⟨union s.lab e.u e.v, s.acc ++ [e], s.total + e.w, s.iters + 1⟩
       if s'.acc.length + 1 = n then s' else kloop n es s'
@@ -69,7 +76,7 @@ structure Result where
 /-- `sorted(edges, key=lambda e: e[2])` (stable) -/
 def sortEdges (E : List Edge) : List Edge := E.mergeSort (fun a b => decide (a.w ≤ b.w))
 
-def kinit : KState := ⟨id, [], 0, 0⟩
+def kinit : KState := ⟨Lab.id, [], 0, 0⟩
 
 /-- what `kruskal` returns from the state the loop ended in -/
 def kfinish (n : Nat) (m : Nat) (allowForest : Bool) (acc : List Edge) (total : Int) (iters : Nat) : Result :=
@@ -219,19 +226,19 @@ def subsetB (T E : List Edge) : Bool := T.all fun e => E.contains e
 /-- all nodes `< n` in one component of `F` -/
 def connectedB (n : Nat) (F : List Edge) : Bool :=
   let lab := labOf F
-  (List.range n).all fun i => lab i == lab 0
+  (List.range n).all fun i => lab.f i == lab.f 0
 
 /-- every edge joins two different components of the edges before it -/
-def forestGo : (Nat → Nat) → List Edge → Bool
+def forestGo : Lab → List Edge → Bool
   | _, [] => true
-  | lab, e :: es => lab e.u != lab e.v && forestGo (union lab e.u e.v) es
+  | lab, e :: es => lab.f e.u != lab.f e.v && forestGo (union lab e.u e.v) es
 
-def forestB (T : List Edge) : Bool := forestGo id T
+def forestB (T : List Edge) : Bool := forestGo Lab.id T
 
 /-- `T` joins the endpoints of every edge of `E` -/
 def spansB (E T : List Edge) : Bool :=
   let lab := labOf T
-  E.all fun e => lab e.u == lab e.v
+  E.all fun e => lab.f e.u == lab.f e.v
 
 /-- `T` is a spanning tree of `(n, E)`: edges of the input, `n-1` of them, connecting all nodes -/
 def chkSpanningTree (n : Nat) (E T : List Edge) : Bool :=
@@ -244,12 +251,12 @@ def chkSpanningForest (E T : List Edge) : Bool :=
 /-- cycle-property certificate: the endpoints of every input edge `e` are already joined by the
 tree edges that are no heavier than `e` -/
 def chkMinCert (E T : List Edge) : Bool :=
-  E.all fun e => let lab := labOf (T.filter fun f => decide (f.w ≤ e.w)); lab e.u == lab e.v
+  E.all fun e => let lab := labOf (T.filter fun f => decide (f.w ≤ e.w)); lab.f e.u == lab.f e.v
 
 /-- number of components among nodes `< n` -/
 def compCount (n : Nat) (F : List Edge) : Nat :=
   let lab := labOf F
-  ((List.range n).filter fun i => lab i == i).length
+  ((List.range n).filter fun i => lab.f i == i).length
 
 /-! ### bounded definitional oracle -/
 
